@@ -4,10 +4,13 @@
 //! Formats are coded 0 i8, 1 i16, 2 I24, 3 i32, 4 I48, 5 i64, 6 u8, 7 u16, 8 U24, 9 u32, 10 U48, 11 u64.
 //! Floats travel as IEEE bit patterns (NaN canonicalised to the quiet NaN).
 //!
-//! model-vs-crate ops (one observation per input: `0 r` | `7 r1 r2` to_sample/from_sample differ | `8 k` panic):
+//! model-vs-crate ops (one observation per input: `0 r` every entry point returned r | `7 r1 r2` two of them differ | `8 k` panic;
+//! entry points: Sample::to_sample, Sample::from_sample, ToSample::to_sample_, FromSample::from_sample_, those two again with only a
+//! `Duplex<_>` bound in scope, and the module function conv::<src>::to_<dst>):
 //!   i2f <src> <32|64> v...       bits of S::to_sample::<f32|f64>()
 //!   f2i <32|64> <dst> bits...    f32|f64::to_sample::<D>()
 //!   f2f <32|64> 0 bits...        f32 -> f64 (32) / f64 -> f32 (64)
+//!   f2f <32|64> 1 bits...        f32 -> f32 (32) / f64 -> f64 (64): the blanket identity impl `impl<S> FromSample<S> for S`
 //! crate-vs-oracle ops (independent exact-integer oracle of the SPECIFICATION, computed from the bit
 //! pattern / the integer with i128 arithmetic, no float operation involved):
 //!   oi2f <src> <32|64> lo n step     integers lo, lo+step, ...   round_NE(amp)/2^(bits-1), [-1,1], round trip
@@ -16,10 +19,15 @@
 //!   rf2i <32|64> <dst> seed n        n pseudo-random bit patterns of the domain [-1,1)
 //!   of2f <32|64> 0 lo n step         bit patterns lo, lo+step, ...  widening exact / narrowing round-to-nearest-even
 //!   rf2f <32|64> 0 seed n            n pseudo-random bit patterns (any class)
+//!   of2f / rf2f <32|64> 1 ...        the same-format conversion: the bit pattern itself (NaN canonicalised)
+//! (the sweeps compare to_sample, from_sample and the module function)
 //!     -> `1 count nontrivial` all agree | `2 input tag got expected nfail` first disagreement
 //! 24/48-bit values are built with `new_unchecked`, results are read with `.inner()`.
-use dasp_sample::{FromSample, Sample, ToSample, I24, I48, U24, U48};
+use dasp_sample::{Duplex, FromSample, Sample, ToSample, I24, I48, U24, U48};
 use dasp_verif_harness::*;
+#[path = "../direct.rs"]
+mod direct;
+use direct::Direct;
 
 trait Fmt: Copy + Sample {
     const BITS: u32;
@@ -125,33 +133,53 @@ fn c64(x: f64) -> i128 { if x.is_nan() { 0x7ff8_0000_0000_0000u64 as i128 } else
 // ---------------------------------------------------------------------------------------------
 // the crate, through the public trait dispatch (both directions of the dispatch compared)
 
+/// conversions reached with nothing but a `Duplex<_>` bound in scope (the marker trait generic code is written against)
 #[inline]
-fn crate_i2f<S>(fw: i128, v: i128) -> (i128, i128)
-where S: Fmt + ToSample<f32> + ToSample<f64>, f32: FromSample<S>, f64: FromSample<S> {
-    let s = S::mk(v);
-    if fw == 32 { (c32(s.to_sample::<f32>()), c32(f32::from_sample(s))) } else { (c64(s.to_sample::<f64>()), c64(f64::from_sample(s))) }
-}
+fn via_duplex_to<A: Duplex<B>, B>(a: A) -> B { a.to_sample_() }
+#[inline]
+fn via_duplex_from<A: Duplex<B>, B>(b: B) -> A { A::from_sample_(b) }
 
+/// (Sample::to_sample, the first other entry point that differs from it -- else the same value), each read by `rd`.
+/// all = false (the sweeps): to_sample, from_sample, module function; all = true: every public entry point
 #[inline]
-fn crate_f2i<D>(fw: i128, b: i128) -> (i128, i128)
-where D: Fmt + FromSample<f32> + FromSample<f64>, f32: ToSample<D>, f64: ToSample<D> {
-    if fw == 32 {
-        let x = f32::from_bits(b as u32);
-        (x.to_sample::<D>().val(), D::from_sample(x).val())
-    } else {
-        let x = f64::from_bits(b as u64);
-        (x.to_sample::<D>().val(), D::from_sample(x).val())
+fn entry_points<A, B>(a: A, all: bool, rd: impl Fn(B) -> i128) -> (i128, i128)
+where A: Copy + Sample + ToSample<B> + Direct<B> + Duplex<B>, B: Copy + Sample + FromSample<A> + Duplex<A> {
+    let r0 = rd(a.to_sample::<B>());
+    let mut other = r0;
+    let mut see = |r: i128| if other == r0 && r != r0 { other = r; };
+    see(rd(B::from_sample(a)));
+    see(rd(a.direct()));
+    if all {
+        see(rd(ToSample::<B>::to_sample_(a)));
+        see(rd(<B as FromSample<A>>::from_sample_(a)));
+        see(rd(via_duplex_to::<A, B>(a)));
+        see(rd(via_duplex_from::<B, A>(a)));
     }
+    (r0, other)
 }
 
 #[inline]
-fn crate_f2f(fw: i128, b: i128) -> (i128, i128) {
-    if fw == 32 {
-        let x = f32::from_bits(b as u32);
-        (c64(x.to_sample::<f64>()), c64(f64::from_sample(x)))
-    } else {
-        let x = f64::from_bits(b as u64);
-        (c32(x.to_sample::<f32>()), c32(f32::from_sample(x)))
+fn crate_i2f<S>(fw: i128, v: i128, all: bool) -> (i128, i128)
+where S: Fmt + Duplex<f32> + Duplex<f64> + Direct<f32> + Direct<f64>, f32: Duplex<S>, f64: Duplex<S> {
+    let s = S::mk(v);
+    if fw == 32 { entry_points::<S, f32>(s, all, c32) } else { entry_points::<S, f64>(s, all, c64) }
+}
+
+#[inline]
+fn crate_f2i<D>(fw: i128, b: i128, all: bool) -> (i128, i128)
+where D: Fmt + Duplex<f32> + Duplex<f64>, f32: Duplex<D> + Direct<D>, f64: Duplex<D> + Direct<D> {
+    if fw == 32 { entry_points::<f32, D>(f32::from_bits(b as u32), all, |r: D| r.val()) }
+    else { entry_points::<f64, D>(f64::from_bits(b as u64), all, |r: D| r.val()) }
+}
+
+/// same = false: f32 -> f64 (fw 32) / f64 -> f32 (fw 64); same = true: f32 -> f32 / f64 -> f64 (blanket identity impl)
+#[inline]
+fn crate_f2f(fw: i128, same: bool, b: i128, all: bool) -> (i128, i128) {
+    match (fw == 32, same) {
+        (true, false) => entry_points::<f32, f64>(f32::from_bits(b as u32), all, c64),
+        (false, false) => entry_points::<f64, f32>(f64::from_bits(b as u64), all, c32),
+        (true, true) => entry_points::<f32, f32>(f32::from_bits(b as u32), all, c32),
+        (false, true) => entry_points::<f64, f64>(f64::from_bits(b as u64), all, c64),
     }
 }
 
@@ -314,11 +342,11 @@ fn sweep(n: u64, seed: u64, gen: &dyn Fn(u64, &mut Xs) -> i128,
 }
 
 fn i2f<S>(op: &str, fw: i128, a: &[i128]) -> String
-where S: Fmt + ToSample<f32> + ToSample<f64> + FromSample<f32> + FromSample<f64>,
-      f32: FromSample<S> + ToSample<S>, f64: FromSample<S> + ToSample<S> {
+where S: Fmt + Duplex<f32> + Duplex<f64> + Direct<f32> + Direct<f64>,
+      f32: Duplex<S> + Direct<S>, f64: Duplex<S> + Direct<S> {
     let ff = if fw == 32 { F32F } else { F64F };
     match op {
-        "i2f" => a.iter().map(|&v| fmt_obs(catch(|| crate_i2f::<S>(fw, v)))).collect::<Vec<_>>().join(";"),
+        "i2f" => a.iter().map(|&v| fmt_obs(catch(|| crate_i2f::<S>(fw, v, true)))).collect::<Vec<_>>().join(";"),
         "oi2f" | "ri2f" => {
             let (lo_r, hi_r) = (fmin::<S>(), fmax::<S>());
             let total = (hi_r - lo_r + 1) as u128;
@@ -340,14 +368,14 @@ where S: Fmt + ToSample<f32> + ToSample<f64> + FromSample<f32> + FromSample<f64>
             let one_bits: i128 = if fw == 32 { 0x3f80_0000 } else { 0x3ff0_0000_0000_0000 };
             let sign_bit: i128 = 1i128 << (fw - 1);
             let eval = move |v: i128| {
-                let pair = crate_i2f::<S>(fw, v);
+                let pair = crate_i2f::<S>(fw, v, false);
                 let e = spec_i2f::<S>(ff, v) as i128;
                 let amp = v - offset::<S>();
                 // within [-1, 1]: magnitude bits <= bits of 1.0 ; round trip where the conversion is exact
                 let mag = pair.0 & !sign_bit;
                 let mut extra = mag > one_bits;
                 if S::BITS <= ff.prec {
-                    let back = crate_f2i::<S>(fw, pair.0);
+                    let back = crate_f2i::<S>(fw, pair.0, false);
                     extra |= back.0 != v || back.1 != v;
                 }
                 (pair, Some(e), extra, i2f_rounds(ff, amp) || !S::SIGNED)
@@ -359,10 +387,10 @@ where S: Fmt + ToSample<f32> + ToSample<f64> + FromSample<f32> + FromSample<f64>
 }
 
 fn f2i<D>(op: &str, fw: i128, a: &[i128]) -> String
-where D: Fmt + FromSample<f32> + FromSample<f64>, f32: ToSample<D>, f64: ToSample<D> {
+where D: Fmt + Duplex<f32> + Duplex<f64>, f32: Duplex<D> + Direct<D>, f64: Duplex<D> + Direct<D> {
     let ff = if fw == 32 { F32F } else { F64F };
     match op {
-        "f2i" => a.iter().map(|&b| fmt_obs(catch(|| crate_f2i::<D>(fw, b)))).collect::<Vec<_>>().join(";"),
+        "f2i" => a.iter().map(|&b| fmt_obs(catch(|| crate_f2i::<D>(fw, b, true)))).collect::<Vec<_>>().join(";"),
         "of2i" | "rf2i" => {
             let sweep_mode = op == "of2i";
             let (a0, a2) = (a[0], if a.len() > 2 { a[2] } else { 1 });
@@ -382,7 +410,7 @@ where D: Fmt + FromSample<f32> + FromSample<f64>, f32: ToSample<D>, f64: ToSampl
                 }
             };
             let eval = move |b: i128| {
-                let pair = crate_f2i::<D>(fw, b);
+                let pair = crate_f2i::<D>(fw, b, false);
                 let (e, frac) = spec_f2i::<D>(ff, b as u64);
                 let dom = in_domain(ff, b as u64);
                 // on the domain the result must be a valid value of the target format
@@ -395,9 +423,9 @@ where D: Fmt + FromSample<f32> + FromSample<f64>, f32: ToSample<D>, f64: ToSampl
     }
 }
 
-fn f2f(op: &str, fw: i128, a: &[i128]) -> String {
+fn f2f(op: &str, fw: i128, same: bool, a: &[i128]) -> String {
     match op {
-        "f2f" => a.iter().map(|&b| fmt_obs(catch(|| crate_f2f(fw, b)))).collect::<Vec<_>>().join(";"),
+        "f2f" => a.iter().map(|&b| fmt_obs(catch(|| crate_f2f(fw, same, b, true)))).collect::<Vec<_>>().join(";"),
         "of2f" | "rf2f" => {
             let sweep_mode = op == "of2f";
             let (a0, a2) = (a[0], if a.len() > 2 { a[2] } else { 1 });
@@ -416,8 +444,11 @@ fn f2f(op: &str, fw: i128, a: &[i128]) -> String {
                 }
             };
             let eval = move |b: i128| {
-                let pair = crate_f2f(fw, b);
-                let (e, nt) = spec_f2f(fw, b as u64);
+                let pair = crate_f2f(fw, same, b, false);
+                let (e, nt) = if same {
+                    // the same format: the bit pattern itself (the harness canonicalises a NaN it reads back)
+                    (match src.decode(b as u64) { None => src.nan(), Some(_) => b as u64 }, false)
+                } else { spec_f2f(fw, b as u64) };
                 (pair, Some(e as i128), false, nt)
             };
             sweep(a[1] as u64, a[0] as u64, &gen, &eval)
@@ -446,7 +477,7 @@ fn main() {
         match op {
             "i2f" | "oi2f" | "ri2f" => by_fmt!(s, i2f, op, d, a),
             "f2i" | "of2i" | "rf2i" => by_fmt!(d, f2i, op, s, a),
-            "f2f" | "of2f" | "rf2f" => f2f(op, s, a),
+            "f2f" | "of2f" | "rf2f" => f2f(op, s, d == 1, a),
             _ => "-1".to_string(),
         }
     });
